@@ -56,6 +56,7 @@ TABLE = {
     "avgpool_chain": (2, ROTATE), "minmax_lrelu": (2, ROTATE), "reshape_fork": (4, MIXED), "widen_ew": (3, ROTATE),
     "lut_mixed": (18, LUT), "shape_out": (42, MIXED), "transpose_perm": (24, ROTATE), "ew_fork": (20, MIXED),
     "fc1_two_core": (12, TWO_CORE),
+    "shared_consts": (15, ROTATE),      # 12 axes of harness/netgen_shared.py (one per weight re-laying rewrite) + 3 drawn
 }
 DEFAULT = (3, ROTATE)
 
